@@ -863,36 +863,40 @@ def rule_enclosing_ignored(chk, prog):
 
 def rule_hyperedge_foreign_points(chk, prog):
     from ..rules.guards import path_condition, atoms
-    r = chk.rule("HYPEREDGE-AVOIDS-FOREIGN-POINTS", "MinimumTerminalSpanningTree::getOrthogonalEdgesFromVertex: an edge of the orthogonal visibility graph "
-                 "to a connector end point / connection pin vertex (`id.isConnPt()`), which may lie inside a shape, is offered to the spanning-tree "
-                 "search only when that vertex is one of the hyperedge's own terminals or the search stands on a terminal's dummy pin vertex "
-                 "(the partner-copy edge aside): every push onto the edge list is reached only past a test that names isConnPt() together with "
-                 "the terminal sets", floor=2)
-    fn = prog.fn("Avoid::MinimumTerminalSpanningTree::getOrthogonalEdgesFromVertex")
-    pushes = [c for c in calls(fn) if str(c.get("cname", "")).endswith("::push_back") and call_object(c) is not None and norm(call_object(c)) == "edgeList"]
-    if len(pushes) < 3:
-        raise AnalysisBroken("getOrthogonalEdgesFromVertex: pushes onto the edge list not found")
-    for c in pushes:
+    r = chk.rule("HYPEREDGE-AVOIDS-FOREIGN-POINTS", "MinimumTerminalSpanningTree::constructInterleaved: the shortest-path forest grows into an unexplored vertex "
+                 "(the vertex is given the tree root pointer of the vertex the search stands on) only past a test that names isConnPt() together "
+                 "with the terminal sets: a connector end point / connection pin vertex of the orthogonal visibility graph, which may lie inside "
+                 "a shape, is entered only when it is one of the hyperedge's own terminals or from a terminal's dummy pin vertex.  The test "
+                 "belongs HERE and not in getOrthogonalEdgesFromVertex, which rewriteRestOfHyperedge also walks the committed tree with (a "
+                 "filter there orphans committed pins: the first repair did that and was corrected)", floor=1)
+    fn = prog.fn("Avoid::MinimumTerminalSpanningTree::constructInterleaved")
+    grows = [c for c in calls(fn) if str(c.get("cname", "")).endswith("VertInf::setTreeRootPointer") and literal_value(call_args(c)[0]) != "null"
+             and "treeRootPointer()" in norm(call_args(c)[0])]
+    if not grows:
+        raise AnalysisBroken("constructInterleaved: the statement that attaches an unexplored vertex to a tree was not found")
+    for c in grows:
+        r.count()
         pc = path_condition(fn, c, inline=False, early=True)
         ats = atoms(pc)
-        own = [a for a in ats if "orthogonalPartner(" in a and "==" in a]
-        if own and any(entails(pc, ("atom", a)) for a in own):
-            continue                  # the dimension-change partner copy of the vertex the search stands on: not a foreign point
-        r.count()
         a_conn = [a for a in ats if a.endswith(".isConnPt()")]
         a_dummy = [a for a in ats if a.endswith(".isDummyPinHelper()")]
         a_find = [a for a in ats if "erminals.find(" in a and "==" in a]
+        benign = [a for a in ats if re.match(r"^\w+$", a) or re.match(r"^\(\w+ != \w+\)$", a)]       # null / identity tests of the two vertices
         want = ("const", False)
-        for a in a_conn[:1]:
+        for a in a_conn[:1] + a_find + benign:
             want = ("or", want, ("not", ("atom", a)))
         for a in a_dummy:
             want = ("or", want, ("atom", a))
-        for a in a_find:
-            want = ("or", want, ("not", ("atom", a)))
         ok = bool(a_conn) and bool(a_find) and entails(pc, want)
-        (r.ok if ok else r.bad)("edge offered at line %s" % c.get("l"), fn.loc(c), "" if ok else
-                                "an edge is offered to the search without the test that keeps it from leading through a connector end point / pin that "
-                                "is not a terminal of this hyperedge")
+        (r.ok if ok else r.bad)("forest growth at line %s" % c.get("l"), fn.loc(c), "" if ok else
+                                "the forest grows into any unexplored vertex, also a connector end point / pin that is not a terminal of this hyperedge")
+    # the walk over the committed tree must see every edge: no terminal-set test in the shared edge enumeration
+    fe = prog.fn("Avoid::MinimumTerminalSpanningTree::getOrthogonalEdgesFromVertex")
+    r.count()
+    filt = [a for c in calls(fe) if str(c.get("cname", "")).endswith("::push_back") for a in atoms(path_condition(fe, c, inline=False, early=True)) if "erminals.find(" in a]
+    (r.bad if filt else r.ok)("edge enumeration shared with rewriteRestOfHyperedge", fe.where(), "" if not filt else
+                              "getOrthogonalEdgesFromVertex filters by the terminal sets (%s): rewriteRestOfHyperedge no longer reaches committed pins, "
+                              "whose tree root pointer is nulled afterwards (assertion in constructInterleaved)" % sorted(set(filt))[0])
 
 
 def rule_hyperedge_segments_all(chk, prog):
